@@ -434,6 +434,14 @@ static void
 trie_node_deref(struct trie *t, struct trie_node *node)
 {
 	if (!trie_node_alive(node)) {
+		if (node->value == NULL && node->refcount > 0) {
+			/* removed while iterators were positioned on it:
+			 * the last one to leave lets go of the node */
+			node->refcount--;
+			if (node->refcount == 0) {
+				trie_node_release(t, node);
+			}
+		}
 		return;
 	}
 	node->refcount--;
@@ -548,7 +556,17 @@ trie_rm(struct qb_map *map, const char *key)
 	struct trie *t = (struct trie *)map;
 	struct trie_node *n = trie_lookup(t, key, QB_TRUE);
 	if (n && trie_node_alive(n)) {
-		trie_node_deref(t, n);
+		if (n->refcount > 1) {
+			/* iterators are positioned on the node: the entry
+			 * leaves the map now, the node stays until they
+			 * have moved on (see trie_node_deref) */
+			trie_notify(n, QB_MAP_NOTIFY_DELETED, n->key, n->value, NULL);
+			n->key = NULL;
+			n->value = NULL;
+			n->refcount--;
+		} else {
+			trie_node_deref(t, n);
+		}
 		t->length--;
 		return QB_TRUE;
 	} else {
